@@ -56,14 +56,17 @@ int check_LU_structure(const vf_type *T, const SuperMatrix *L, const SuperMatrix
             /* U column j */
             long u0 = (long)Us->colptr[j], u1 = (long)Us->colptr[j + 1];
             if (u1 < u0) return fail(v, "U colptr not monotone at %d", j);
-            unsigned long useen = 0;
+            unsigned long useen = 0, unz = 0;
             for (long k = u0; k < u1; k++) {
                 long i = (long)Us->rowind[k];
                 if (i < 0 || i >= f) return fail(v, "U column %d holds row %ld, not strictly above its supernode (first col %d)", j, i, f);
+                int nzv = (T->ld(Us->nzval, k) != 0);
                 if (useen >> i & 1) {
                     if (!ilu) return fail(v, "U column %d repeats row %ld", j, i);
+                    /* incomplete LU may list a row twice, but only with an explicit zero: two non-zero values for one position have no meaning */
+                    if (nzv && (unz >> i & 1)) return fail(v, "U column %d repeats row %ld with a second non-zero value", j, i);
                 }
-                useen |= 1ul << i;
+                useen |= 1ul << i; if (nzv) unz |= 1ul << i;
             }
             nnzU += u1 - u0;
         }
